@@ -41,12 +41,13 @@ for _f in sorted(_g.glob(_o.path.join(_o.path.dirname(_o.path.abspath(__file__))
 # ---- GoLite: decision functions regenerated from the Go source on every run (harness/translators/golite) and proved
 # equal to the model's predicates for all arguments (coq/Check/GoLite*.v over coq/gen/GoLiteFuns.v).
 _GL_FILES = {"validate": "Check/GoLiteValidate.v", "submit": "Check/GoLiteSubmit.v", "throttle": "Check/GoLiteThrottle.v",
-             "lazy": "Check/GoLiteLazy.v", "da": "Check/GoLiteDA.v", "admit": "Check/GoLiteAdmit.v", "includer": "Check/GoLiteIncluder.v", "queue": "Check/GoLiteQueue.v", "producer": "Check/GoLiteProducer.v", "loop-filter": "Check/GoLiteLoopFilter.v", "loop-waiting": "Check/GoLiteLoopWaiting.v", "loop-chunks": "Check/GoLiteLoopChunks.v", "loop-pending": "Check/GoLiteLoopPending.v", "publish": "Check/GoLitePublish.v"}
+             "lazy": "Check/GoLiteLazy.v", "da": "Check/GoLiteDA.v", "admit": "Check/GoLiteAdmit.v", "includer": "Check/GoLiteIncluder.v", "queue": "Check/GoLiteQueue.v", "producer": "Check/GoLiteProducer.v", "loop-filter": "Check/GoLiteLoopFilter.v", "loop-waiting": "Check/GoLiteLoopWaiting.v", "loop-chunks": "Check/GoLiteLoopChunks.v", "loop-pending": "Check/GoLiteLoopPending.v", "publish": "Check/GoLitePublish.v", "sync": "Check/GoLiteSync.v"}
 _GOLITE = {
     "C01": [("publish", "Manager.publishBlockInternal (with Manager.retrieveBatch and Manager.updateState inside it), the orchestration of block production, evaluated against scripted collaborators whose calls are logged: for ALL worlds (which calls fail, heights, limit and backlogs, answer of the sequencing layer, pending block or not, cancelled context or not) the returned value, the complete sequence of calls WITH their arguments, and the in-memory cursor / state afterwards = Check/GoLitePublish.pub_expect; Proofs/GoLitePublishRefine.v: for every input of Producer.step the code performs the store writes of the model (cursor; early block, empty signature; final block, new signature and metadata, after Validate; state; height) in the model's order, and its refusal test = fst Throttle.limit_check, a refused attempt calling nothing"),
             ("producer", "Manager.retrieveBatch with its effects (the whole batch passed on, ErrNoBatch iff it has no transactions, ONE metadata write of the cursor, the in-memory cursor moved also when that write fails; nothing on an error / no response / no batch) = the SErr / SNil / SBatch cases of Producer.produce, for all answers of the sequencing layer"),
             ("validate", "execValidate = Types.validate, SignedHeader.ValidateBasic = Types.validate_basic, types.Validate = Types.validate_pair")],
-    "C02": [("validate", "execValidate = Types.validate (the validation the syncer applies to every received block)"),
+    "C02": [("sync", "Manager.trySyncNextBlock (block/sync.go; one iteration of its endless loop, Manager.updateState inside it), the orchestration of block application on a full node, evaluated against scripted collaborators whose calls are logged: for ALL worlds the returned value (error / nil / go round again), the complete sequence of calls with their arguments and Manager.lastState afterwards = Check/GoLiteSync.sync_expect; Proofs/GoLiteSyncRefine.v: for every loop state of Syncer.try_sync the iteration stops / halts / continues exactly as the model does, validates before it executes, writes nothing on a failure and otherwise performs the model's block_writes in the model's order (block, state, height)"),
+            ("validate", "execValidate = Types.validate (the validation the syncer applies to every received block)"),
             ("admit", "handlePotentialHeader / handlePotentialData (block/retriever.go) with their effects — result, DA-included mark, includer signal, event sent to sync — = Admission.da_admit, for all genesis data, seen-sets, items and DA heights (blob decoding by class is assumed: C12)")],
     "C03": [("loop-chunks", "the chunked Get loop of types.RetrieveWithHelpers, translated shallowly into a Gallina Fixpoint, = Get over the chunks of Admission.chunks (100 ids each, last one shorter, none empty, in order, stop at the first error), by induction for ALL id lists"),
             ("admit", "handlePotentialHeader / handlePotentialData (block/retriever.go) with their effects — result, DA-included mark, includer signal, event sent to sync — = Admission.da_admit, for all genesis data, seen-sets, items and DA heights (blob decoding by class is assumed: C12)"),
@@ -54,7 +55,8 @@ _GOLITE = {
     "C04": [("publish", "Manager.publishBlockInternal (with Manager.retrieveBatch and Manager.updateState inside it), the orchestration of block production, evaluated against scripted collaborators whose calls are logged: for ALL worlds (which calls fail, heights, limit and backlogs, answer of the sequencing layer, pending block or not, cancelled context or not) the returned value, the complete sequence of calls WITH their arguments, and the in-memory cursor / state afterwards = Check/GoLitePublish.pub_expect; Proofs/GoLitePublishRefine.v: for every input of Producer.step the code performs the store writes of the model (cursor; early block, empty signature; final block, new signature and metadata, after Validate; state; height) in the model's order, and its refusal test = fst Throttle.limit_check, a refused attempt calling nothing"),
             ("producer", "Manager.retrieveBatch with its effects (the whole batch passed on, ErrNoBatch iff it has no transactions, ONE metadata write of the cursor, the in-memory cursor moved also when that write fails; nothing on an error / no response / no batch) = the SErr / SNil / SBatch cases of Producer.produce, for all answers of the sequencing layer"),
             ("validate", "execValidate = Types.validate")],
-    "C05": [("validate", "execValidate = Types.validate")],
+    "C05": [("sync", "Manager.trySyncNextBlock (block/sync.go; one iteration of its endless loop, Manager.updateState inside it), the orchestration of block application on a full node, evaluated against scripted collaborators whose calls are logged: for ALL worlds the returned value (error / nil / go round again), the complete sequence of calls with their arguments and Manager.lastState afterwards = Check/GoLiteSync.sync_expect; Proofs/GoLiteSyncRefine.v: for every loop state of Syncer.try_sync the iteration stops / halts / continues exactly as the model does, validates before it executes, writes nothing on a failure and otherwise performs the model's block_writes in the model's order (block, state, height)"),
+            ("validate", "execValidate = Types.validate")],
     "C06": [("loop-pending", "the loop of pendingBase.getPending, translated shallowly, = Throttle.get_pending (the heights lastSubmitted+1 .. height, each fetched once, in increasing order, stop at the first failing fetch), by induction for ALL watermarks and heights"),
             ("submit", "Manager.exponentialBackoff = Submitter.exp_backoff, pendingBase.isEmpty = (store height =? watermark)"),
             ("da", "types.SubmitWithHelpers = Proxy.submit_helper (the status the retry loop of submitToDA switches on)")],
@@ -88,7 +90,8 @@ for _k, _groups in _GOLITE.items():
     _e["technique"] = _e.get("technique", "") + "; decision functions translated from the Go source on every run (go/ast -> deep-embedded Gallina AST) and proved equal to the model's predicates"
 
 # property files that state theorems over the translated code need the translation's files built with them
-for _k, _extra in {"C04": ["Model/GoLite.v", "Check/GoLiteTactics.v", "Check/GoLitePublish.v", "Proofs/GoLitePublishRefine.v"],
+for _k, _extra in {"C05": ["Model/GoLite.v", "Check/GoLiteTactics.v", "Check/GoLiteSync.v", "Proofs/GoLiteSyncRefine.v"],
+                   "C04": ["Model/GoLite.v", "Check/GoLiteTactics.v", "Check/GoLitePublish.v", "Proofs/GoLitePublishRefine.v"],
                    "C08": ["Model/GoLite.v", "Check/GoLiteTactics.v", "Check/GoLitePublish.v", "Proofs/GoLitePublishRefine.v"],
                    "C10": ["Model/GoLite.v", "Check/GoLiteTactics.v", "Check/GoLiteQueue.v", "Proofs/GoLiteQueueRefine.v"],
                    "C03": ["Model/GoLite.v", "Check/GoLiteTactics.v", "Check/GoLiteAdmit.v", "Proofs/GoLiteAdmitRefine.v"]}.items():
